@@ -50,6 +50,67 @@ impl Bracket {
   }
 }
 
+struct FatalCtx {
+  acc: Arc<Mutex<Acc>>,
+  progress: Arc<Mutex<u64>>,
+  br: Arc<Mutex<BracketState>>,
+  outp: String,
+  prefix: String,
+}
+static FATAL: std::sync::OnceLock<FatalCtx> = std::sync::OnceLock::new();
+
+/// first frames of the current backtrace that belong to the library under test
+pub fn repo_frames(max: usize) -> Vec<String> {
+  let bt = std::backtrace::Backtrace::force_capture().to_string();
+  let mut v = vec![];
+  for l in bt.lines() {
+    let l = l.trim();
+    if let Some(pos) = l.find("rustdds::") {
+      let f = &l[pos..];
+      if f.starts_with("rustdds::verif::") {
+        continue;
+      }
+      // strip the hash suffix ::h0123...
+      let f = match f.rfind("::h") {
+        Some(i) if f.len() - i == 19 => &f[..i],
+        _ => f,
+      };
+      if v.last().map_or(true, |x: &String| x != f) {
+        v.push(f.to_string());
+      }
+      if v.len() >= max {
+        break;
+      }
+    }
+  }
+  v
+}
+
+/// Called from the allocator when one request is >= alloc::HUGE. Records a violation
+/// with the allocating call site, writes the shard report and ends the process.
+pub fn fatal_huge_alloc(size: usize) -> ! {
+  let frames = repo_frames(4);
+  let site = frames.first().cloned().unwrap_or_else(|| "unknown".into());
+  if let Some(cx) = FATAL.get() {
+    let idx = *cx.progress.lock().unwrap();
+    let (label, case) = {
+      let g = cx.br.lock().unwrap();
+      (g.in_op.as_ref().map(|x| x.0.clone()).unwrap_or_default(), g.case.clone())
+    };
+    cx.acc.lock().unwrap().violate(
+      format!("{}/memory:single-allocation-of-{}MiB-or-more@{}", cx.prefix, crate::alloc::HUGE >> 20, site),
+      json!({"case_index": idx, "request_bytes": size, "call": label, "frames": frames}),
+      json!({"case": case}),
+    );
+    let a = std::mem::take(&mut *cx.acc.lock().unwrap());
+    let so = ShardOut { acc: a, next_index: idx + 1, hang: Some(json!({"huge_alloc": size})) };
+    let tmp = format!("{}.tmp", cx.outp);
+    let _ = std::fs::write(&tmp, serde_json::to_string(&so).unwrap());
+    let _ = std::fs::rename(&tmp, &cx.outp);
+  }
+  unsafe { libc::_exit(3) }
+}
+
 pub const CPU_BUDGET_S: f64 = 2.0;
 pub const WALL_STALL_S: f64 = 90.0;
 
@@ -167,6 +228,7 @@ where
   let progress = Arc::new(Mutex::new(from));
   let br_state = Arc::new(Mutex::new(BracketState { in_op: None, case: Value::Null, thread: unsafe { libc::pthread_self() } }));
   let outp = outp.to_string();
+  let _ = FATAL.set(FatalCtx { acc: acc.clone(), progress: progress.clone(), br: br_state.clone(), outp: outp.clone(), prefix: hang_prefix.to_string() });
   let journal_path = std::path::Path::new(&outp).with_extension("journal");
   let write_out = {
     let acc = acc.clone();
@@ -228,7 +290,7 @@ where
       let cpu = thread_cpu_of(thread).map(|c| c - cpu0).unwrap_or(0.0);
       let idx = *progress.lock().unwrap();
       if cpu > CPU_BUDGET_S {
-        let kind = label.split(|c: char| !c.is_alphanumeric() && c != '_').next().unwrap_or("op").to_string();
+        let kind = label.split(|c: char| !c.is_alphanumeric() && c != '_' && c != '-').next().unwrap_or("op").to_string();
         acc.lock().unwrap().violate(
           format!("{hang_prefix}/hang:call-did-not-return:{kind}"),
           json!({"case_index": idx, "call": label, "thread_cpu_s": cpu, "wall_s": wall}),
